@@ -77,4 +77,14 @@ theorem C05_one_linkage_per_residue {α : Type} (down : Nat → α → α) (w : 
     (linkages down w F 0 1 0 a).length = F.size ∧ (linkages down w F 0 1 0 a).map (·.2.1) = List.range' 1 F.size :=
   ⟨linkages_length down w F 0 1 0 a, linkages_children down w F 0 1 0 a⟩
 
+open Gly.EnumC in
+/-- **A linking atom is used once**: after `mark` has turned an atom into a marker, every later successful `mark` on the same residue –
+    same or another position – chooses a different atom; two residues written onto one position are therefore bound to two
+    different atoms (a phosphodiester's two free ends) or the second one raises – never silently onto the atom already used.
+    (The marker elements are neither O nor N: `C01_marker_table`.) -/
+theorem C05_linking_atom_used_once (v : View) (x x' : Numbering) (pos pos' oZ nZ oZ' nZ' r z r' z' : Nat)
+    (hm : oZ ≠ 8 ∧ oZ ≠ 7 ∧ nZ ≠ 8 ∧ nZ ≠ 7)
+    (h1 : markAt v x pos oZ nZ = .ok (r, z)) (h2 : markAt (v.setZ r z) x' pos' oZ' nZ' = .ok (r', z')) : r' ≠ r :=
+  mark_never_reuses v x x' pos pos' oZ nZ oZ' nZ' r z r' z' hm h1 h2
+
 end Gly.Props.C05
